@@ -412,7 +412,7 @@ func TestVerifC03(t *testing.T) {
 	}
 	rep := verifutil.NewReport()
 	defer rep.Write()
-	nScen := verifutil.Scale(2, 10)
+	nScen := verifutil.Scale(2, 6)
 	steps := verifutil.Scale(150, 320)
 	every := verifutil.Scale(5, 2) // tamper every n-th block
 	ops := tamperOps()
